@@ -37,5 +37,10 @@ func goroutinesLeft(sub string, g0 int) int {
 		time.Sleep(10 * time.Millisecond)
 		left = goroutinesOf(sub) - g0
 	}
+	if left < 0 {
+		// fewer than before: a goroutine of an earlier scenario was still on its way out when the baseline was
+		// taken (seen once, on a loaded machine, as goroutines_left=-1). Nothing of this scenario is left.
+		left = 0
+	}
 	return left
 }
